@@ -12,8 +12,9 @@ V = os.path.abspath(os.path.join(os.path.dirname(__file__), '..'))
 LEAF_TYPES = ['u8', 'u16', 'u32', 'u64', 'i8', 'i16', 'i32', 'i64', 'bool', 'char', 'f32', 'f64', 'String']
 
 
-def F(name, ty, idx, b=False, tag=None, skip=False, codec=None):
-    return {'name': name, 'ty': ty, 'idx': idx, 'b': b, 'tag': tag, 'skip': skip, 'codec': codec}
+def F(name, ty, idx, b=False, tag=None, skip=False, codec=None, nilable=None):
+    """nilable: the field type is not spelled Option<..> but *is* an Option (type alias) - nil by the Encode/Decode traits"""
+    return {'name': name, 'ty': ty, 'idx': idx, 'b': b, 'tag': tag, 'skip': skip, 'codec': codec, 'nilable': nilable}
 
 
 def S(name, kind, fields=(), enc=None, tag=None, transparent=False, lifetimes=False, generics=None, doc=''):
@@ -84,6 +85,36 @@ def corpus():
     C.append(S('H00', 'struct', [F('f00', 'u8', 0), F('f01', 'Option<E00>', 1), F('f02', 'u8', 2)]))
     C.append(S('H01', 'struct', [F('f00', 'u8', 0), F('f01', 'Option<E01>', 1), F('f02', 'u8', 2)], doc='index_only enum as optional field'))
     C.append(S('H02', 'struct', [F('f00', 'u8', 0), F('f01', 'Option<E02>', 1), F('f02', 'u8', 2)], enc='map'))
+    # --- borrowing x codec x container kind (every #[b] form: the decoded value must point into the input) ----------------
+    C.append(S('B00', 'struct', [F('f00', "Cow<'a, [u8]>", 0, b=True, codec='bytes'), F('f01', "&'a [u8]", 1, b=True, codec='bytes'),
+                                 F('f02', "&'a ByteSlice", 2, b=True), F('f03', "Cow<'a, ByteSlice>", 3, b=True)], lifetimes=True, doc='borrowed byte strings, array'))
+    C.append(S('B01', 'struct', [F('f00', "Cow<'a, [u8]>", 4, b=True, codec='bytes'), F('f01', "Option<&'a [u8]>", 1, b=True, codec='bytes'),
+                                 F('f02', "Cow<'a, str>", 2, b=True), F('f03', "Option<&'a str>", 0, b=True)], enc='map', lifetimes=True, doc='borrowed strings, map'))
+    C.append(E('B02', [Var('V0', 0, 'named', [F('f00', "Cow<'a, [u8]>", 0, b=True, codec='bytes'), F('f01', "Cow<'a, ByteSlice>", 1, b=True)]),
+                       Var('V1', 1, 'tuple', [F('_0', "&'a ByteSlice", 0, b=True), F('_1', "Cow<'a, str>", 1, b=True)], enc='map')], lifetimes=True, doc='borrowing inside enum variants'))
+    C.append(S('B03', 'tuple', [F('_0', "Cow<'a, [u8]>", 0, b=True, codec='bytes')], transparent=True, lifetimes=True, doc='transparent, borrowed bytes with codec'))
+    C.append(S('B04', 'struct', [F('f00', "Cow<'a, str>", 0, b=True)], transparent=True, lifetimes=True, doc='transparent, borrowed str'))
+    C.append(S('B05', 'tuple', [F('_0', "Cow<'a, ByteSlice>", 0, b=True)], transparent=True, lifetimes=True, doc='transparent, borrowed ByteSlice'))
+    # --- values that are nil without being spelled Option<..>, and wrappers around Option that are *not* nil ----------------------
+    C.append(S('T00', 'tuple', [F('_0', 'Option<u8>', 0)], transparent=True, doc='transparent newtype around an Option'))
+    C.append(S('N00', 'struct', [F('f00', 'u8', 0), F('f01', 'Box<Option<u8>>', 1), F('f02', 'Option<u8>', 2)], doc='boxed option (never nil) in the middle'))
+    C.append(S('N01', 'struct', [F('f00', 'u8', 0), F('f01', 'Box<Option<u8>>', 1)], enc='map', doc='boxed option, map'))
+    C.append(S('N02', 'struct', [F('f00', 'u8', 0), F('f01', 'Box<Option<u8>>', 1)], doc='boxed option, trailing'))
+    C.append(S('N03', 'struct', [F('f00', 'T00', 0), F('f01', 'u8', 1)], doc='transparent-over-Option, leading'))
+    C.append(S('N04', 'struct', [F('f00', 'u8', 0), F('f01', 'T00', 1)], doc='transparent-over-Option, trailing'))
+    C.append(S('N05', 'struct', [F('f00', 'u8', 0), F('f01', 'T00', 1)], enc='map', doc='transparent-over-Option, map'))
+    C.append(S('N06', 'struct', [F('f00', 'u8', 0), F('f01', 'Tagged<7, Option<u8>>', 1), F('f02', 'u8', 2)], doc='Tagged<N, Option>, middle'))
+    C.append(S('N07', 'struct', [F('f00', 'u8', 0), F('f01', 'Tagged<7, Option<u8>>', 1)], enc='map', doc='Tagged<N, Option>, map'))
+    C.append(S('N08', 'struct', [F('f00', 'u8', 0), F('f01', 'OptAlias', 1, nilable=True), F('f02', 'u8', 2)], doc='alias of Option: nil through the traits, middle'))
+    C.append(S('N09', 'struct', [F('f00', 'u8', 0), F('f01', 'OptAlias', 1, nilable=True)], enc='map', doc='alias of Option, map'))
+    C.append(S('N10', 'struct', [F('f00', 'u8', 0), F('f01', 'OptAlias', 1, nilable=True)], doc='alias of Option, trailing'))
+    C.append(S('N11', 'struct', [F('f00', 'u8', 0), F('f01', 'OptAlias', 1, nilable=True, codec='decode_only')], enc='map', doc='alias of Option with a decode-only codec'))
+    C.append(E('N12', [Var('V0', 0, 'named', [F('f00', 'u8', 0), F('f01', 'OptAlias', 1, nilable=True, codec='decode_only')]),
+                       Var('V1', 1, 'tuple', [F('_0', 'T00', 0), F('_1', 'Box<Option<u8>>', 1)], enc='map')], doc='nil-ness inside enum variants'))
+    C.append(S('N13', 'struct', [F('f00', 'u8', 0), F('f01', 'Option<Opaque>', 1, codec='custom_nil_opt'), F('f02', 'u8', 2)], doc='Option field whose codec defines nil differently from None'))
+    C.append(S('N14', 'struct', [F('f00', 'u8', 0), F('f01', 'Option<Opaque>', 1, codec='custom_nil_opt')], enc='map', doc='same, map'))
+    C.append(E('N15', [Var('V0', 0, 'named', [F('f00', 'u8', 0), F('f01', 'Option<Opaque>', 1, codec='custom_nil_opt')], enc='map')], doc='same, enum variant'))
+    C.append(S('N16', 'struct', [F('f00', 'A17', 0), F('f01', 'Option<A18>', 1), F('f02', 'E01', 2)], enc='map', doc='nested transparent / index_only types as fields'))
     return C
 
 
@@ -141,6 +172,11 @@ def attr_field(f, default_n=True):
         a.append('#[cbor(with = "minicbor::bytes")]')
     elif c == 'custom':
         a.append('#[cbor(encode_with = "crate::codec::enc_opaque", decode_with = "crate::codec::dec_opaque", cbor_len = "crate::codec::len_opaque")]')
+    elif c == 'decode_only':
+        a.append('#[cbor(decode_with = "crate::codec::fwd_alias")]')
+    elif c == 'custom_nil_opt':
+        a.append('#[cbor(encode_with = "crate::codec::enc_oo", decode_with = "crate::codec::dec_oo", cbor_len = "crate::codec::len_oo", '
+                 'is_nil = "crate::codec::is_nil_oo", nil = "crate::codec::nil_oo")]')
     elif c == 'custom_nil':
         a.append('#[cbor(encode_with = "crate::codec::enc_opaque", decode_with = "crate::codec::dec_opaque", cbor_len = "crate::codec::len_opaque", '
                  'is_nil = "crate::codec::is_nil_opaque", nil = "crate::codec::nil_opaque")]')
@@ -211,7 +247,12 @@ def emit(s):
 HEADER = '''// GENERATED by tools/gen_schemas.py - do not edit.
 #![allow(dead_code, unused_imports)]
 use minicbor::{Encode, Decode, CborLen};
+use minicbor::bytes::ByteSlice;
+use minicbor::data::Tagged;
 use std::borrow::Cow;
+
+/// an Option that is not spelled `Option<..>` where the derive macro looks at it
+pub type OptAlias = Option<u16>;
 
 /// Opaque leaf type with a custom codec (bodies are irrelevant: the analysis treats `codec::*` as leaves).
 #[derive(Debug, Default)]
@@ -242,6 +283,32 @@ pub mod codec {
     #[inline(never)]
     pub fn nil_opaque() -> Option<Opaque> {
         Some(Opaque(0))
+    }
+    // a codec for Option<Opaque> whose notion of nil (Some(Opaque(0))) is not `None`
+    #[inline(never)]
+    pub fn enc_oo<C, W: Write>(v: &Option<Opaque>, e: &mut Encoder<W>, _: &mut C) -> Result<(), Error<W::Error>> {
+        match v { Some(o) => e.u32(o.0)?.ok(), None => e.u32(u32::MAX)?.ok() }
+    }
+    #[inline(never)]
+    pub fn dec_oo<'b, C>(d: &mut Decoder<'b>, _: &mut C) -> Result<Option<Opaque>, minicbor::decode::Error> {
+        d.u32().map(|n| if n == u32::MAX { None } else { Some(Opaque(n)) })
+    }
+    #[inline(never)]
+    pub fn len_oo<C>(v: &Option<Opaque>, ctx: &mut C) -> usize {
+        use minicbor::CborLen;
+        v.as_ref().map(|o| o.0).unwrap_or(u32::MAX).cbor_len(ctx)
+    }
+    #[inline(never)]
+    pub fn is_nil_oo(v: &Option<Opaque>) -> bool {
+        matches!(v, Some(Opaque(0)))
+    }
+    #[inline(never)]
+    pub fn nil_oo() -> Option<Option<Opaque>> {
+        Some(Some(Opaque(0)))
+    }
+    // a decode-only codec that simply forwards to the trait (not opaque: the analysis follows it)
+    pub fn fwd_alias<'b, C>(d: &mut Decoder<'b>, ctx: &mut C) -> Result<super::OptAlias, minicbor::decode::Error> {
+        minicbor::Decode::decode(d, ctx)
     }
 }
 
